@@ -95,7 +95,11 @@ Example C10_meta_nonvacuous :
               m_tokens := [([95;97;108;108;95]%N, []); ([107]%N, [118;49]%N)] |} in
   meta_ok m /\ unmarshal_meta (marshal_meta m) = UOk m /\ firstn 4 (marshal_meta m) = [124; 63; 1; 0]%N.
 Proof.
-  repeat split; try (vm_compute; reflexivity); try (repeat constructor; vm_compute; reflexivity).
+  assert (L : forall a b : N, N.ltb a b = true -> (a < b)%N) by (intros a b; apply N.ltb_lt).
+  split; [|split; vm_compute; reflexivity].
+  unfold meta_ok; cbn [m_mid m_rid m_size m_tokens].
+  repeat split; try (apply L; vm_compute; reflexivity).
+  repeat constructor; apply L; vm_compute; reflexivity.
 Qed.
 
 
